@@ -335,4 +335,29 @@ PROPS = {
             sub("gibbs", "c13_simu", 2000, 60000),
             sub("pgs", "c13_simu", 800, 25000),
         ]),
+    "C15": dict(
+        level="exploration",
+        rule=("rapidcheck-generated meshes (MeshETurbo on 1-3D grids incl. rotated and polarised, masked; MeshEStandard from jittered turbo apices through "
+              "createFromExternal; nx 3-14 per axis) x Matern-type models (admitted nu, ranges, anisotropy, rotation) x data layouts; oracles: matrix-free "
+              "PrecisionOp::evalDirect(x) = getQ().x and every column of Q = Lambda.P(S).Lambda computed in long double; Q symmetric and positive definite "
+              "(dense Cholesky, lambda_min, sparse Cholesky solve/log-det); addToDest really adds; projection rows of inside points (membership decided by the "
+              "harness, points kept off element edges): <= ndim+1 entries, >= -1e-12, sum 1, sum w_k.apex_k = point, empty rows outside, correct row alignment; "
+              "krigingSPDE and the quadratic term with Cholesky vs conjugate gradients within a bound derived from the CG tolerance and a dense reference; every "
+              "CG / sparse Cholesky solve satisfies its system (residual <= tolerance.|b|); matrix-free powers vs the library's own Chebyshev polynomial; "
+              "non-trivial = rotated, 3-D, unstructured, masked mesh or anisotropic covariance (proj: >=1 point inside such a mesh); distinct = hash of "
+              "(dimension, mesh kind, apices, smoothness, range/cell ratio, rotation, storage, data layout)"),
+        assumptions=["turbo mesh geometry is checked against the harness's own grid-node computation; connectivity is taken from the library and checked to tile the grid",
+                     "CG tolerance eps means |r|^2 <= eps |b|^2 (most lenient reading of the code); SPDE does not forward SPDEParam CG parameters, so 1e-8 is in force in krigingSPDE",
+                     "Eigen CG (LinearOpCGSolver): tolerance = relative residual, factor 2 for recursive vs true residual",
+                     "the pieces (Q_i, A_i, data variances) of the reference kriging system are read from the SPDE object (themselves checked by the precision / proj subs)",
+                     "log-determinants of the iterative mode are not compared; csparse storage with two structures is not generated in the multi-conditional solve (crash finding repaired separately)"],
+        subs=[
+            sub("precision", "c15_spde", 1200, 40000, qw=4, tw=8),
+            sub("addtodest", "c15_spde", 400, 4000, qw=1, tw=2),
+            sub("proj", "c15_spde", 3000, 80000),
+            sub("kriging", "c15_spde", 1200, 40000, qw=4, tw=8),
+            sub("solves", "c15_spde", 1200, 40000, qw=4, tw=8),
+            sub("spdeop", "c15_spde", 800, 20000, qw=2, tw=4),
+            sub("powers", "c15_spde", 12, 300, qw=2, tw=6),
+        ]),
 }
